@@ -85,10 +85,14 @@ def replay(scn):
             codec = A.LabelCodec(mixed=True)
             kinds = ["i"] * len(a_abs["dims"])
             kinds[d] = kind
-            for byname in (True, False, "neg"):
+            for byname in (True, False, "neg", "digit"):
                 a = A.gamma(a_abs, codec, kinds)
+                if byname == "digit":
+                    if kind != "i" or not all(n in A.DIGIT_NAMES for n in a_abs["dims"]):
+                        continue
+                    A.digit_dims(a)          # dimensions named '1', '0', ..: the axis is given by such a name
                 before = A.snapshot(a)
-                ax = a_abs["dims"][d] if byname is True else (d if byname is False else d - a.ndim)
+                ax = a_abs["dims"][d] if byname is True else (d if byname is False else (d - a.ndim if byname == "neg" else A.DIGIT_NAMES[a_abs["dims"][d]]))
                 variant = "kind=%s byname=%s" % (kind, byname)
                 calls += 1
                 what = None
@@ -107,6 +111,10 @@ def replay(scn):
                     what = "raised %s: %s" % (type(e).__name__, str(e)[:200])
                 if what is None and A.snapshot(a) != before:
                     what = "operand modified"
+                if byname == "digit":
+                    A.digit_dims(a, back=True)
+                    if what is None:
+                        A.digit_dims(res, back=True)
                 if what is None:
                     what = _check(scn, res, a, codec, kinds, kind) or None
                 if what:
